@@ -3,6 +3,7 @@
 # Confirms in a scratch worktree: suite passes with the change, demo fails with it, demo passes without.
 # On success copies the change to /verif/seeded/<id>/ with the confirmation recorded in meta.json.
 set -u
+MUT_TEST_FLAGS=${MUT_TEST_FLAGS:-}
 SRC=$1; ID=$2
 export GOFLAGS=-mod=mod GOPROXY=off GOSUMDB=off GOTOOLCHAIN=local
 WT=/tmp/confirm-$ID
